@@ -172,8 +172,12 @@ enum Pre {
 }
 
 fn prehistories(tier: Tier) -> Vec<Pre> {
+    if let Ok(only) = std::env::var("SCHEDX_ONLY") {
+        let all = vec![Pre::NoDivergence, Pre::OneAhead, Pre::SoftEqual, Pre::SoftUnequal, Pre::SameSecret, Pre::RenameBoth, Pre::Three];
+        return all.into_iter().filter(|p| format!("{:?}", p) == only).collect();
+    }
     match tier {
-        Tier::Quick => vec![Pre::OneAhead, Pre::SoftEqual, Pre::SoftUnequal, Pre::SameSecret],
+        Tier::Quick => vec![Pre::OneAhead, Pre::SoftEqual, Pre::SoftUnequal, Pre::SameSecret, Pre::Three],
         Tier::Thorough => vec![Pre::NoDivergence, Pre::OneAhead, Pre::SoftEqual, Pre::SoftUnequal, Pre::SameSecret, Pre::RenameBoth, Pre::Three],
     }
 }
@@ -600,7 +604,10 @@ fn main() {
                         let before = p["preemptions_before"].as_u64().unwrap() as usize;
                         for alt in 1..enabled {
                             let cost = before + if running_enabled { 1 } else { 0 };
-                            if cost > bound {
+                            // three devices: one preemption less than the
+                            // two-device bound (the space grows much faster)
+                            let b = if ndev(&it.pre) > 2 && args.tier == Tier::Quick { bound.saturating_sub(1) } else { bound };
+                            if cost > b {
                                 continue;
                             }
                             let mut pre: Vec<usize> = it.prefix.clone();
